@@ -254,7 +254,7 @@ pub fn check() -> PropertyCheck {
         subs: vec![
             Box::new(Pbt {
                 name: "differential",
-                quick: 200_000,
+                quick: 800_000,
                 thorough: 20_000_000,
                 strat: sum_strat,
                 test: sum_test,
